@@ -13,7 +13,9 @@ then the 20 checks are run on it with --repo: every check must exit 0 (known fin
   demorgan    `if a or b` -> `if not (not a and not b)`; `for a, b in X:` -> `for item in X: a, b = item`
   hoist       `self.attr` read twice or more in a method -> a local bound at the top of the method
   reflect     `a < b` -> `b > a`; `a & b` -> `b & a`; `x if c else y` -> `y if not c else x`; raise E(f"...") -> msg = f"..."; raise E(msg)
-  all         everything above, in that order
+  dslnest     `with m.If(a & b):` -> `with m.If(a): with m.If(b):`; parameters and returns annotated; docstrings dropped
+  temps       assigned values and refusal tests through a temporary (`value_k = a & b`, `refuse_k = <test>`)
+  all         everything above but temps, in that order
 """
 import argparse
 import ast
@@ -247,9 +249,76 @@ def t_reflect(tree):
     return tree
 
 
+def t_dslnest(tree):
+    """`with m.If(a & b): BODY` (no Elif / Else following) -> `with m.If(a): with m.If(b): BODY`; function parameters get annotations;
+    docstrings are dropped."""
+    def is_ctx(st, names):
+        return isinstance(st, ast.With) and len(st.items) == 1 and isinstance(st.items[0].context_expr, ast.Call) and \
+            isinstance(st.items[0].context_expr.func, ast.Attribute) and st.items[0].context_expr.func.attr in names
+
+    def nest(stmts):
+        for i, st in enumerate(stmts):
+            for fld in ("body", "orelse", "finalbody"):
+                b = getattr(st, fld, None)
+                if isinstance(b, list) and b and isinstance(b[0], ast.stmt):
+                    nest(b)
+            if is_ctx(st, ("If",)) and not (i + 1 < len(stmts) and is_ctx(stmts[i + 1], ("Elif", "Else"))):
+                call = st.items[0].context_expr
+                if len(call.args) == 1 and isinstance(call.args[0], ast.BinOp) and isinstance(call.args[0].op, ast.BitAnd):
+                    a, b = call.args[0].left, call.args[0].right
+                    inner = ast.With(items=[ast.withitem(context_expr=ast.Call(func=call.func, args=[b], keywords=[]))], body=st.body)
+                    call.args = [a]
+                    st.body = [inner]
+    for fn in [f for f in ast.walk(tree) if isinstance(f, ast.FunctionDef)]:
+        nest(fn.body)
+        for a in fn.args.args + fn.args.kwonlyargs:
+            if a.arg not in ("self", "cls") and a.annotation is None:
+                a.annotation = ast.Constant(value="object")
+        if fn.returns is None and fn.name != "__init__":
+            fn.returns = ast.Constant(value="object")
+    for node in ast.walk(tree):
+        if isinstance(node, (ast.FunctionDef, ast.ClassDef, ast.Module)) and node.body and isinstance(node.body[0], ast.Expr) and \
+                isinstance(node.body[0].value, ast.Constant) and isinstance(node.body[0].value.value, str) and len(node.body) > 1:
+            del node.body[0]
+    return tree
+
+
+def t_temps(tree):
+    """Temporaries: `m.d.x += T.eq(<operation>)` -> `value_k = <operation>; m.d.x += T.eq(value_k)`; `if <test>: raise ...` ->
+    `refuse_k = <test>; if refuse_k: raise ...` (single-statement bodies that raise)."""
+    def walk(stmts, k):
+        i = 0
+        while i < len(stmts):
+            st = stmts[i]
+            for fld in ("body", "orelse", "finalbody"):
+                b = getattr(st, fld, None)
+                if isinstance(b, list) and b and isinstance(b[0], ast.stmt):
+                    walk(b, k)
+            if isinstance(st, ast.AugAssign) and isinstance(st.op, ast.Add) and isinstance(st.value, ast.Call) and \
+                    isinstance(st.value.func, ast.Attribute) and st.value.func.attr == "eq" and len(st.value.args) == 1 and \
+                    isinstance(st.value.args[0], (ast.BinOp, ast.UnaryOp, ast.Call)) and isinstance(st.target, ast.Attribute) and \
+                    isinstance(st.target.value, ast.Attribute) and st.target.value.attr == "d":
+                k[0] += 1
+                nm = f"value_{k[0]}"
+                stmts.insert(i, ast.Assign(targets=[ast.Name(id=nm, ctx=ast.Store())], value=st.value.args[0]))
+                st.value.args = [ast.Name(id=nm, ctx=ast.Load())]
+                i += 1
+            elif isinstance(st, ast.If) and not st.orelse and len(st.body) == 1 and isinstance(st.body[0], ast.Raise) and \
+                    not isinstance(st.test, ast.Name):
+                k[0] += 1
+                nm = f"refuse_{k[0]}"
+                stmts.insert(i, ast.Assign(targets=[ast.Name(id=nm, ctx=ast.Store())], value=st.test))
+                st.test = ast.Name(id=nm, ctx=ast.Load())
+                i += 1
+            i += 1
+    for fn in [f for f in ast.walk(tree) if isinstance(f, ast.FunctionDef)]:
+        walk(fn.body, [0])
+    return tree
+
+
 VARIANTS = collections.OrderedDict(unparse=[t_unparse], locals=[t_locals], order=[t_order], demorgan=[t_demorgan], hoist=[t_hoist],
-                                   reflect=[t_reflect])
-VARIANTS["all"] = [t_locals, t_order, t_demorgan, t_hoist, t_reflect]
+                                   reflect=[t_reflect], dslnest=[t_dslnest], temps=[t_temps])
+VARIANTS["all"] = [t_locals, t_order, t_demorgan, t_hoist, t_reflect, t_dslnest]
 
 
 def main():
